@@ -14,6 +14,9 @@ HierSpec (JSON):
   Actual = {"root": name of a port/signal of the node, "sl": null | [hi, lo] | [i], "view": null|"u"|"s"|"bv",
             "op": absent | ["xor"|"and"|"or", Actual] | ["addc", int] | ["lt"|"eq", Actual]}   (computed value as the
             actual of an input formal: `Child(a=self.x ^ self.y)`; lt/eq give a Bit)
+            optional "psl": [hi, lo] | [i] and "pview": slice / index / typed view of the computed value
+  node T additionally "regs": [{"name", "src": Actual, "en": Actual|null, "rst": bool}]: signals (listed in "signals"
+            with a non-null "default") updated in a clocked context `if en: r <<= src`, with std.Reset(self.rst) if rst
   Expr (leaf logic, typed by construction):
      ["p", port] ["lit", ty, value] ["sl", e, hi, lo] ["ix", e, i] ["view", kind, e] ["cat", e1, e2]
      ["add"|"sub", e1, e2] ["addc"|"subc", e, int] ["and"|"or"|"xor", e1, e2] ["not", e]
@@ -44,6 +47,11 @@ def actual_type(root_ty, act):
         ty = [act["view"], width(ty)]
     if act.get("op") and act["op"][0] in ("lt", "eq"):
         ty = ["bit"]
+    psl = act.get("psl")
+    if psl is not None:
+        ty = ["bit"] if len(psl) == 1 else ["bv", psl[0] - psl[1] + 1]
+    if act.get("pview"):
+        ty = [act["pview"], width(ty)]
     return ty
 
 
@@ -51,7 +59,7 @@ def classify(formal_ty, root_ty, act):
     """class of an actual relative to its formal (labels / signatures)."""
     at = actual_type(root_ty, act)
     if act.get("op"):
-        return "expr"
+        return "expr+slice" if act.get("psl") is not None or act.get("pview") else "expr"
     parts = []
     if act.get("sl") is not None:
         parts.append("index" if len(act["sl"]) == 1 else ("slice" if root_ty[0] == "bv" else "numslice"))
@@ -247,6 +255,8 @@ class _NodeBuilder:
         self.is_top = is_top
         self.allow_conv = allow_conv   # actuals whose Python type differs from the type of the sliced root
         self.allow_expr = False        # computed values (x ^ y, x + 1, x < y) as actuals of input formals
+        self.cur_where = "arch"
+        self.regs = []
         self.ports = []
         self.signals = []
         self.insts = []
@@ -288,7 +298,10 @@ class _NodeBuilder:
     # -- actuals
     def in_actual(self, fty):
         d = self.draw
-        if self.allow_expr and d(st.integers(0, 2)) == 0:
+        # computed values are only accepted for instances inside a context (kept rare in architecture())
+        if self.allow_expr and d(st.integers(0, 1 if self.cur_where == "conc" else 9)) == 0:
+            if d(st.integers(0, 2)) != 2:
+                return self.sliced_expr_actual(fty)
             return self.expr_actual(fty)
         return self.plain_in_actual(fty)
 
@@ -299,6 +312,34 @@ class _NodeBuilder:
             self.consumed.add(s[0])
             return {"root": s[0], "sl": None, "view": None}
         return {"root": self.new_in(ty), "sl": None, "view": None}
+
+    def sliced_expr_actual(self, fty):
+        """a slice / index / typed view of a value computed in the context of the instance and read by
+        nothing else: `Child(a=(self.x ^ self.y)[6:3].unsigned)`"""
+        d = self.draw
+        w = width(fty)
+        k2 = d(st.sampled_from(["bv", "u", "s"]))
+        extra = d(st.integers(0, 3))
+        if fty[0] == "bit":
+            extra = max(extra, 1)
+        elif extra == 0 and k2 == fty[0]:
+            extra = 1
+        bty = [k2, w + extra]
+        a = self._whole(bty)
+        ops = ["xor", "and", "or"] + (["addc"] if k2 in ("u", "s") and bty[1] > 1 else [])
+        op = d(st.sampled_from(ops))
+        a["op"] = ["addc", d(st.integers(1, max(1, (1 << (bty[1] - 1)) - 1)))] if op == "addc" else [op, self._whole(bty)]
+        if fty[0] == "bit":
+            a["psl"] = [d(st.integers(0, bty[1] - 1))]
+            return a
+        cur = k2
+        if extra:
+            lo = d(st.integers(0, extra))
+            a["psl"] = [lo + w - 1, lo]
+            cur = "bv"
+        if cur != fty[0]:
+            a["pview"] = fty[0]
+        return a
 
     def expr_actual(self, fty):
         d = self.draw
@@ -398,15 +439,14 @@ class _NodeBuilder:
         child = self.templates[child_idx]
         helper = d(st.sampled_from(["none", "none", "none", "open", "conn"]))
         where = d(st.sampled_from(["arch", "arch", "conc"]))
+        self.cur_where = where
         conn, pre, post = {}, {}, {}
         cins = [p for p in child["ports"] if p["dir"] == "in"]
         couts = [p for p in child["ports"] if p["dir"] == "out"]
         for p in cins:
-            if p["name"] == "clk":
-                if not self.has_clk:
-                    self.ports.append({"name": "clk", "dir": "in", "ty": ["bit"]})
-                    self.has_clk = True
-                conn["clk"] = {"root": "clk", "sl": None, "view": None}
+            if p["name"] in ("clk", "rst"):
+                self.need_port(p["name"])
+                conn[p["name"]] = {"root": p["name"], "sl": None, "view": None}
                 continue
             a = self.in_actual(p["ty"])
             if helper == "conn" and d(st.booleans()):
@@ -484,6 +524,31 @@ class _NodeBuilder:
         self.insts.append({"t": child_idx, "helper": helper, "where": where, "order": order,
                            "conn": conn, "pre": pre, "post": post})
 
+    def need_port(self, name):
+        if name not in [p["name"] for p in self.ports]:
+            self.ports.append({"name": name, "dir": "in", "ty": ["bit"]})
+        if name == "clk":
+            self.has_clk = True
+
+    def add_regs(self):
+        """parent-owned registers with a non-null default (conditionally updated in a clocked context, optionally
+        with reset); they are sources for the inputs of the instances (connected whole)"""
+        d = self.draw
+        use_rst = d(st.booleans())
+        self.need_port("clk")
+        if use_rst:
+            self.need_port("rst")
+        for j in range(d(st.integers(1, 2))):
+            ty = ["bit"] if d(st.integers(0, 4)) == 0 else [d(st.sampled_from(["u", "s", "bv"])), d(st.integers(2, 5))]
+            w = width(ty)
+            name = f"r{j}n{self.idx}"
+            self.signals.append({"name": name, "ty": ty, "default": d(st.integers(1, (1 << w) - 1))})
+            src = {"root": self.new_in(ty), "sl": None, "view": None}
+            en = {"root": self.new_in(["bit"]), "sl": None, "view": None} if d(st.integers(0, 3)) != 0 else None
+            self.regs.append({"name": name, "src": src, "en": en, "rst": use_rst})
+            # listed several times: instances pick it often
+            self.sources += [[name, ty]] * 3
+
     def finish(self):
         d = self.draw
         # export unconsumed local signals so that the logic stays observable
@@ -493,12 +558,14 @@ class _NodeBuilder:
                 self.glue.append([{"root": o, "sl": None, "view": None}, {"root": s["name"], "sl": None, "view": None}])
         ports = list(d(st.permutations(self.ports)))
         return {"name": None, "kind": "node", "ports": ports, "signals": self.signals, "insts": self.insts,
-                "glue": self.glue}
+                "glue": self.glue, "regs": self.regs}
 
 
 def _node(draw, idx, templates, children, name, allow_mismatch, allow_conv, allow_expr=False):
     b = _NodeBuilder(draw, idx, templates, allow_mismatch, is_top=(name == "Top"), allow_conv=allow_conv)
     b.allow_expr = allow_expr
+    if draw(st.integers(0, 2)) == 0:
+        b.add_regs()
     for c in children:
         b.build_inst(c)
     t = b.finish()
